@@ -924,3 +924,32 @@ CLIGRAPHOUT_CODES = {1: "malformed record", 360: "tool failed on a well-formed m
                      363: "tree edges of the written graph are no spanning forest",
                      364: "written graph does not represent the input matrix",
                      365: "no graph written although the matrix is (co)graphic"}
+
+
+def clictu_lines(rng, count):
+    """cases `mode r c infmt outfmt nin bytes..` for cli:clictu: small 0/1 matrices; mode 2 with every kind of (r, c)
+    request, mode 1 (-N) on matrices within the CTU oracle's size"""
+    import vlib
+    out = []
+    for i in range(count):
+        mode = 2 if i % 3 else 1
+        m, n = 1 + rng.below(4), 1 + rng.below(4)
+        while mode == 1 and m * n > 12:
+            m, n = 1 + rng.below(4), 1 + rng.below(4)
+        if mode == 2 and rng.below(5) == 0:
+            m, n = 1 + rng.below(9), 1 + rng.below(9)
+        M = vlib.rand_matrix(rng, m, n, (0, 1), 3 + rng.below(6), 10)
+        r = rng.below(m + 1) - 1 if mode == 2 else -1
+        c = rng.below(n + 1) - 1 if mode == 2 else -1
+        if mode == 2 and r < 0 and c < 0:
+            r = rng.below(m)          # without -r / -c the tool is in recognition mode
+        fmt = rng.below(2)
+        b = [ord(ch) for ch in _mat_text(rng, M, fmt)]
+        out.append("%d %d %d %d %d %d %s" % (mode, r, c, fmt, rng.below(2), len(b), " ".join(map(str, b))))
+    return out
+
+
+CLICTU_CODES = {1: "malformed record", 380: "cmr-ctu failed on a well-formed 0/1 matrix file", 381: "cmr-ctu wrote no matrix",
+                382: "cmr-ctu output does not follow the matrix format", 383: "cmr-ctu output is not the requested complement",
+                384: "cmr-ctu -N output is not a non-TU complement of the input",
+                385: "cmr-ctu -N wrote a matrix although the input is complement totally unimodular"}
